@@ -436,11 +436,14 @@ def check(pid, tier, seed):
         n = 300 if tier == "quick" else 5000
         hists = [random_history(rnd, "c11-%d" % i, rnd.randint(5, 60)) for i in range(n)]
         acc = run_histories(exe, hists, verdict, "C11")
-        nn = sum(1 for h in hists if len(h.script) > 20)
+        from . import p_econf
+        nmix = 150 if tier == "quick" else 4000
+        acc += p_econf.run_mixed(exe, rnd, nmix, verdict, "C11")
+        nn = sum(1 for h in hists if len(h.script) > 20) + nmix
         cov = {"states": mc.distinct, "transitions": mc.generated, "traces_validated_against_impl": okf + acc,
                "evaluations": len(recs) + len(hists), "distinct_nontrivial": len([x for x in recs if len(x["hist"]) >= 2]) + nn,
-               "rule": "MC_KeyFile: every object reachable by <= %d setter calls over sections {NULL,\"\",A,[A],B,[B]} x keys {x,y} x 2 values from newKeyFile / newIniFile / newKeyFile_with_options / a parsed file with a repeated key, a value-less key and a key-less section; refinement invariants checked for every next call at every object (%d objects). Forward: one shortest history per object reachable by <= %d calls (%d) replayed with 42 probe calls each. Backward: %d random histories of 5..60 calls (setters of several types, getters with/without default incl. NULL default, listings, NULL object, NULL/empty key, bracketed sections, growth beyond 8 entries) validated by Trace_KeyFile. non-trivial = history with an overwrite or >= 2 calls / random history with > 20 calls." % (
-                   maxops + 1, mc.distinct, maxops, len(recs), len(hists)),
+               "rule": "MC_KeyFile: every object reachable by <= %d setter calls over sections {NULL,\"\",A,[A],B,[B]} x keys {x,y} x 2 values from newKeyFile / newIniFile / newKeyFile_with_options / a parsed file with a repeated key, a value-less key and a key-less section; refinement invariants checked for every next call at every object (%d objects). Forward: one shortest history per object reachable by <= %d calls (%d) replayed with 42 probe calls each. Backward: %d random histories of 5..60 calls (setters of several types, getters with/without default incl. NULL default, listings, NULL object, NULL/empty key, bracketed sections, growth beyond 8 entries) validated by Trace_KeyFile; + %d mixed histories (files, single and layered reads, setters, merges, writes and reads of the written files) validated end to end against the root specification Econf.tla (Trace_Econf). non-trivial = history with an overwrite or >= 2 calls / random history with > 20 calls." % (
+                   maxops + 1, mc.distinct, maxops, len(recs), len(hists), nmix),
                "samples": [{"ctor": recs[50]["ctor"], "history": show_hist(recs[50]), "expected_listing": recs[50]["dump"]}] if len(recs) > 50 else [],
                "exhaustive": True, "trusted_base": ["TLC 1.8.0", "gcc ASan/UBSan", "drv.c"]}
     else:
